@@ -150,6 +150,10 @@ impl Scenario for CtrJump {
             None => return Ok(()),
         };
         let f = sp.v.family;
+        if !crate::scn::streams::available(&sp.v) {
+            obs.hit("skipped.hooks_unavailable");
+            return Ok(());
+        }
         let mask: u64 = if f.counter_bits() == 32 { 0xffff_ffff } else { u64::MAX };
         let mut real = guarded(|| make_stream(&sp.v, sp.rounds, &sp.key, &sp.nonce)).map_err(|m| Violation::new("unexpected-panic", 0, "context constructed", m, sp.v.name))?;
         let mut blk: u64 = 0;
@@ -160,6 +164,10 @@ impl Scenario for CtrJump {
             obs.begin_op(i);
             match op.k {
                 K_JUMP => {
+                    if !has_seek(&sp.v) && !crate::scn::streams::HOOKS {
+                        obs.hit("skipped.hooks_unavailable");
+                        continue; // no public way to move this stream: the history goes on from where it stands
+                    }
                     let target = op.arg & mask;
                     obs.hit("fault.clock_jump");
                     if off != 0 {
@@ -226,7 +234,10 @@ impl Scenario for CtrJump {
                 continue;
             }
             let want_ctr = blk.wrapping_add(if off > 0 { 1 } else { 0 }) & mask;
-            let got_ctr = real.counter();
+            let got_ctr = match real.counter() {
+                Some(c) => c,
+                None => continue,
+            };
             if got_ctr != (blk & mask) && got_ctr != (blk.wrapping_add(1) & mask) {
                 return Err(Violation::new("counter-invariant", i, format!("{:#x}", want_ctr), format!("{:#x}", got_ctr), format!("{}: block counter after op (model position block {:#x} offset {})", sp.v.name, blk, off)));
             }
